@@ -9,6 +9,8 @@
    DefaultLocation constructor, so the LDefault arm is never reached with loc = false).
 
    Writer = EndianVec: Address::Symbol is Err(InvalidAddress) (Writer::write_address default).
+   The code is modelled as repaired by /repo commits 85ffc95 and e67c31b: no unchecked arithmetic is left in these
+   functions, so the writers take no `dbg` argument (debug and release builds behave alike).
    Streams: c16.rng c16.loc c16.unit c16.add c16.f8 c16.nopanic.  NO proofs in this file. *)
 From Coq Require Import List NArith ZArith Bool.
 From Coq.Strings Require Import Byte.
@@ -32,69 +34,86 @@ Definition write_expression (be : bool) (version : N) (d : list byte) : res (lis
 Definition opt_expression (loc be : bool) (version : N) (d : list byte) : res (list byte) :=
   if loc then write_expression be version d else Ok [].
 
-(* the `end` of a StartLength entry in write_ranges / write_loc:
-     Address::Constant(begin) => Address::Constant(begin + length)            -- unchecked u64 `+`
-     Address::Symbol{symbol, addend} => Address::Symbol{symbol, addend: addend + length as i64}   -- unchecked i64 `+` *)
-Definition start_length_end (dbg : bool) (b : addr) (len : N) : res addr :=
+(* the `end` of a StartLength entry in write_ranges / write_loc (after fix e67c31b):
+     Address::Constant(begin) => Address::Constant(begin.checked_add(length).ok_or(Error::ValueTooLarge)?)
+     Address::Symbol{symbol, addend} => Address::Symbol{symbol,
+        addend: i64::try_from(length).ok().and_then(|length| addend.checked_add(length)).ok_or(Error::ValueTooLarge)?} *)
+Definition start_length_end (b : addr) (len : N) : res addr :=
   match b with
-  | AConst v => let* s := chk_add 64 dbg v len in Ok (AConst s)
-  | ASym s a => let* z := chk_s 64 dbg (a + to_i64 len) in Ok (ASym s z)
+  | AConst v => if v + len <? 2 ^ 64 then Ok (AConst (v + len)) else Err WValueTooLarge
+  | ASym s a =>
+      if len <? 2 ^ 63 then
+        (if in_i64 (a + Z.of_N len) then Ok (ASym s (a + Z.of_N len)) else Err WValueTooLarge)
+      else Err WValueTooLarge
   end.
 
 (* ---------------------------------------------------------------- DWARF 2-4: .debug_ranges / .debug_loc *)
 
+(* `let marker = match address_size { 1..=8 => !0u64 >> (64 - u32::from(address_size) * 8), _ => return
+   Err(Error::UnsupportedWordSize(address_size)) }` (after fix 85ffc95): u32 arithmetic, shift 0..56, no overflow *)
+Definition marker_of (asz : N) : res N :=
+  if (1 <=? asz) && (asz <=? 8) then Ok (N.shiftr (two64 - 1) (64 - asz * 8)) else Err WUnsupportedWordSize.
+
 (* the body of `for range in &range_list.0 { match *range … }` followed by the (0,0) terminator.
-   hb = have_base_address (reset per list to the unit's flag by the caller). *)
-Fixpoint write_list_v4 (dbg loc be : bool) (version asz : N) (hb : bool) (l : list wloc) : res (list byte) :=
+   hb = have_base_address (reset per list to the unit's flag by the caller); mk = marker. *)
+Fixpoint write_list_v4 (loc be : bool) (version asz mk : N) (hb : bool) (l : list wloc) : res (list byte) :=
   match l with
   | [] =>
       let* z1 := write_udata be 0 asz in
       let* z2 := write_udata be 0 asz in
       Ok (z1 ++ z2)
   | LBase a :: r =>
-      let* marker := ones_sized dbg asz in                 (* !0 >> (64 - address_size * 8), u8 arithmetic *)
-      let* b1 := write_udata be marker asz in
+      let* b1 := write_udata be mk asz in
       let* b2 := write_address be a asz in
-      let* rest := write_list_v4 dbg loc be version asz true r in
+      let* rest := write_list_v4 loc be version asz mk true r in
       Ok (b1 ++ b2 ++ rest)
   | LOffsetPair b e d :: r =>
       if b =? e then Err WInvalidRange else
       if negb hb then Err WMissingBaseAddress else
+      if b =? mk then Err WInvalidRange else
       let* b1 := write_udata be b asz in
       let* b2 := write_udata be e asz in
       let* x := opt_expression loc be version d in
-      let* rest := write_list_v4 dbg loc be version asz hb r in
+      let* rest := write_list_v4 loc be version asz mk hb r in
       Ok (b1 ++ b2 ++ x ++ rest)
   | LStartEnd b e d :: r =>
       if addr_eqb b e then Err WInvalidRange else
       if hb then Err WUnexpectedBaseAddress else
+      if addr_eqb b (AConst mk) then Err WInvalidRange else
       let* b1 := write_address be b asz in
       let* b2 := write_address be e asz in
       let* x := opt_expression loc be version d in
-      let* rest := write_list_v4 dbg loc be version asz hb r in
+      let* rest := write_list_v4 loc be version asz mk hb r in
       Ok (b1 ++ b2 ++ x ++ rest)
   | LStartLength b len d :: r =>
-      let* e := start_length_end dbg b len in
+      let* e := start_length_end b len in
       if addr_eqb b e then Err WInvalidRange else
       if hb then Err WUnexpectedBaseAddress else
+      if addr_eqb b (AConst mk) then Err WInvalidRange else
       let* b1 := write_address be b asz in
       let* b2 := write_address be e asz in
       let* x := opt_expression loc be version d in
-      let* rest := write_list_v4 dbg loc be version asz hb r in
+      let* rest := write_list_v4 loc be version asz mk hb r in
       Ok (b1 ++ b2 ++ x ++ rest)
   | LDefault _ :: _ => Err WInvalidRange
   end.
 
 (* `for range_list in self.ranges.iter() { offsets.push(w.offset()); … }`; pos = w.len() *)
-Fixpoint write_tbl_v4 (dbg loc be : bool) (version asz : N) (hb : bool) (pos : N) (tbl : list (list wloc))
+Fixpoint write_lists_v4 (loc be : bool) (version asz mk : N) (hb : bool) (pos : N) (tbl : list (list wloc))
   : res (list byte * list N) :=
   match tbl with
   | [] => Ok ([], [])
   | l :: r =>
-      let* bs := write_list_v4 dbg loc be version asz hb l in
-      let* (rest, offs) := write_tbl_v4 dbg loc be version asz hb (pos + N.of_nat (length bs)) r in
+      let* bs := write_list_v4 loc be version asz mk hb l in
+      let* (rest, offs) := write_lists_v4 loc be version asz mk hb (pos + N.of_nat (length bs)) r in
       Ok (bs ++ rest, pos :: offs)
   end.
+
+(* write_ranges / write_loc: the marker (and with it the address-size check) comes before the first list *)
+Definition write_tbl_v4 (loc be : bool) (version asz : N) (hb : bool) (pos : N) (tbl : list (list wloc))
+  : res (list byte * list N) :=
+  let* mk := marker_of asz in
+  write_lists_v4 loc be version asz mk hb pos tbl.
 
 (* ---------------------------------------------------------------- DWARF 5: .debug_rnglists / .debug_loclists *)
 
@@ -166,12 +185,12 @@ Definition write_tbl_v5 (loc be fmt64 : bool) (version asz : N) (start : N) (tbl
   Ok (il ++ hdr ++ body, offs).
 
 (* RangeListTable::write / LocationListTable::write: returns the bytes appended to the section and the offsets *)
-Definition table_write (dbg loc be fmt64 : bool) (version asz : N) (hb : bool) (start : N)
+Definition table_write (loc be fmt64 : bool) (version asz : N) (hb : bool) (start : N)
   (tbl : list (list wloc)) : res (list byte * list N) :=
   match tbl with
   | [] => Ok ([], [])                                       (* RangeListOffsets::none() *)
   | _ =>
-      if (2 <=? version) && (version <=? 4) then write_tbl_v4 dbg loc be version asz hb start tbl
+      if (2 <=? version) && (version <=? 4) then write_tbl_v4 loc be version asz hb start tbl
       else if version =? 5 then write_tbl_v5 loc be fmt64 version asz start tbl
       else Err WUnsupportedVersion
   end.
@@ -261,12 +280,12 @@ Fixpoint root_attrs_write (be : bool) (asz : N) (attrs : list (N * attrval)) : r
 
 (* Unit::write: version check (UnsupportedVersion before anything else), have_base_address, range lists, then
    location lists, then the DIEs. rstart/lstart = current length of the section the table goes to. *)
-Definition unit_write_lists (dbg be fmt64 : bool) (version asz : N) (attrs : list (N * attrval))
+Definition unit_write_lists (be fmt64 : bool) (version asz : N) (attrs : list (N * attrval))
   (rstart lstart : N) (rtbl : list (list wrange)) (ltbl : list (list wloc))
   : res ((list byte * list N) * (list byte * list N)) :=
   if negb ((2 <=? version) && (version <=? 5)) then Err WUnsupportedVersion else
   let hb := have_base_address attrs in
-  let* r := table_write dbg false be fmt64 version asz hb rstart (map (map loc_of_range) rtbl) in
-  let* l := table_write dbg true be fmt64 version asz hb lstart ltbl in
+  let* r := table_write false be fmt64 version asz hb rstart (map (map loc_of_range) rtbl) in
+  let* l := table_write true be fmt64 version asz hb lstart ltbl in
   let* _ := root_attrs_write be asz attrs in
   Ok (r, l).
